@@ -214,6 +214,59 @@ class FollowExec(SymExec):
         return self.block(p, list(stmts))
 
 
+def _leading_walrus(test: ast.AST) -> ast.NamedExpr | None:
+    """The assignment expression that is evaluated first and unconditionally in a condition."""
+    t = test
+    while True:
+        if isinstance(t, ast.NamedExpr):
+            return t if isinstance(t.target, ast.Name) else None
+        if isinstance(t, ast.UnaryOp) and isinstance(t.op, ast.Not):
+            t = t.operand
+        elif isinstance(t, ast.BoolOp):
+            t = t.values[0]
+        elif isinstance(t, ast.Compare):
+            t = t.left
+        else:
+            return None
+
+
+def hoist_walrus(tree: ast.AST) -> None:
+    """`if (x := e) ...:` -> `x = e` followed by `if x ...:` (in place; same evaluation order, so the
+    symbolic walker sees an ordinary local)."""
+    changed = True
+    while changed:
+        changed = False
+        for node in ast.walk(tree):
+            for field in ("body", "orelse", "finalbody"):
+                suite = getattr(node, field, None)
+                if not (isinstance(suite, list) and suite and isinstance(suite[0], ast.stmt)):
+                    continue
+                for i, st in enumerate(suite):
+                    w = _leading_walrus(st.test) if isinstance(st, ast.If) else None
+                    if w is None:
+                        continue
+                    assign = ast.copy_location(ast.Assign(targets=[ast.Name(id=w.target.id, ctx=ast.Store())],  # type: ignore[attr-defined]
+                                                          value=w.value), st)
+                    name = ast.copy_location(ast.Name(id=w.target.id, ctx=ast.Load()), w)  # type: ignore[attr-defined]
+                    if st.test is w:
+                        st.test = name
+                    else:
+                        for parent in ast.walk(st.test):
+                            for f, v in ast.iter_fields(parent):
+                                if v is w:
+                                    setattr(parent, f, name)
+                                elif isinstance(v, list) and any(x is w for x in v):
+                                    setattr(parent, f, [name if x is w else x for x in v])
+                    suite[i:i + 1] = [assign, st]
+                    changed = True
+                    break
+                if changed:
+                    break
+            if changed:
+                break
+    ast.fix_missing_locations(tree)
+
+
 class Walk:
     """One anchored function read through its helpers: the tree with simple helpers spliced in and a
     FollowExec for what is left."""
@@ -222,6 +275,7 @@ class Walk:
         self.fn = fn
         self.tree = inline_helpers(prog, fn, exclude=anchors)
         self.spliced: set[str] = set(getattr(self.tree, "_spliced", ()))
+        hoist_walrus(self.tree)
         self.ex = FollowExec(prog, fn, anchors=anchors)
         try:
             self.paths = self.ex.function_paths(self.tree)
